@@ -333,7 +333,8 @@ def _objdump_crosscheck(arch):
         return len(keys), ['objdump produced %d lines for %d words' % (len(mn), len(keys))]
     # architectural aliases llvm-objdump prints even with -M no-aliases: (emulator's canonical name, printed alias)
     alias_pairs = {('movn', 'mov'), ('movz', 'mov'), ('orr', 'mov'), ('add', 'mov'), ('ins', 'mov'), ('umov', 'mov'), ('ror', 'rorv'), ('ror', 'ror'), ('lsl', 'lslv'), ('lsr', 'lsrv'), ('asr', 'asrv'), ('extr', 'ror'),
-                   ('bfm', 'bfi'), ('bfm', 'bfxil'), ('ubfm', 'lsr'), ('ubfm', 'lsl'), ('ubfm', 'ubfx'), ('ubfm', 'uxtw'), ('sbfm', 'asr'), ('sbfm', 'sxtw'), ('madd', 'mul'), ('sub', 'neg'), ('subs', 'cmp'), ('ands', 'tst')}
+                   ('bfm', 'bfi'), ('bfm', 'bfxil'), ('ubfm', 'lsr'), ('ubfm', 'lsl'), ('ubfm', 'ubfx'), ('ubfm', 'uxtw'), ('sbfm', 'asr'), ('sbfm', 'sxtw'), ('madd', 'mul'), ('sub', 'neg'), ('subs', 'cmp'), ('ands', 'tst'),
+                   ('c.slli', 'c.slli64')}   # c.slli with shamt 0 is the RV64C hint encoding: rd unchanged either way
     for k, o in zip(keys, mn):
         mine = re.sub(r'\(.*\)', '', words[k])
 
@@ -343,10 +344,31 @@ def _objdump_crosscheck(arch):
     return len(keys), bad
 
 
+def _post_c20(V, prop, tier):
+    n, bad = _objdump_crosscheck('rv64')
+    return dict(label='emulator-decode-crosschecked-words', count=n, problems=bad[:10])
+
+
 def _post_c19(V, prop, tier):
     n, bad = _objdump_crosscheck('a64')
     return dict(label='emulator-decode-crosschecked-words', count=n, problems=bad[:10])
 
+
+CHECKS['C20'] = dict(
+    level='exploration',
+    rule='ProgramGen cases (all shapes incl. IMUL_RCP-saturated programs that walk the integer-register / FP-register / literal-pool paths at 4 and 10 reciprocals and both halves of the 494-entry pool, CBRANCH distances selecting '
+         'c.beqz / beq / c.bnez+jal, CFROUND with and without rotation, boundary immediates for the lui/addiw materialisation) x fast / light x v1/v2 (soft-AES mix) x entry rounding mode; the scalar RV64 emitter (hasRVV shimmed to false) runs on the '
+         'host, its output plus the cross-assembled runtime is executed by an RV64GC instruction-subset emulator with region-checked memory. Oracle: r/f/e registers, scratchpad and final rounding mode == host interpreter; '
+         'emitted dataset-init code == initDatasetItem for generated ranges. Non-trivial: every distinct program / range',
+    assumptions=COMMON_ASSUME + ['emu/rv64.hpp implements the RISC-V unprivileged ISA semantics of the RV64IMD+Zicsr+C forms used (decode of every executed word cross-checked against llvm-objdump; unknown encodings are hard errors)',
+                                 'built without Zba/Zbb (the #ifdef paths for those extensions are not compiled); vector back-end out of scope per the property',
+                                 'fence.i / instruction-cache coherence is outside the emulated model'],
+    pre=lambda: _words_clean(), post=lambda V, p, t: _post_c20(V, p, t),
+    stages=[
+        dict(name='rv64', env={'VERIF_WORDS_DIR': WORDS_DIR}, harness=H('c20', ['harness/c20_rv64.cpp', 'emu/rv64_host.cpp'], model=True, cflags=['-fno-access-control'], ldflags=PROG_LD + ['-Wl,--wrap=allocMemoryPages'], extra_objs=[lambda V: V.ensure_cross_blob('rv64')]),
+             plan={'quick': 'rv64_prog=320,rv64_dataset=64', 'thorough': 'rv64_prog=100000,rv64_dataset=20000'}),
+    ],
+)
 
 C02_AUX = os.path.join(os.path.dirname(os.path.abspath(__file__)), 'build', 'run', 'c02-digests')
 
